@@ -425,3 +425,87 @@ def model_report(tokens):
         bid = t.z()
         out.append((bid, SLOTS[t.int()], ATTRS[t.int()], KINDS[t.int()]))
     return out
+
+
+# ------------------------------------------------------------------------------------------------
+# files of the older format revisions (1.2.x / 1.3.x): blocks reference a [DELAYS] entry, no duration column
+def gen_legacy(rng):
+    fam = rng.choice(['siemens', 'siemens', 'b10g5'])
+    br, rr, gr, ar = (Fraction(x) for x in FAMILIES[fam])
+    s = {'family': fam, 'block': fl(br), 'rf': fl(rr), 'grad': fl(gr), 'adc': fl(ar), 'rf_dead': rng.choice([0.0, 1e-4]),
+         'rf_ring': rng.choice([0.0, 2e-5, 3e-5]), 'adc_dead': rng.choice([0.0, 1e-5, 2e-5])}
+    blocks = []
+    for _ in range(rng.randint(2, 9)):
+        b = {'delay_us': rng.choice([0, 0, 10 * rng.randint(1, 40), 10 * rng.randint(20, 400)]), 'rf': None, 'gx': None, 'gy': None,
+             'gz': None, 'adc': None}
+        if rng.random() < 0.35:
+            b['rf'] = {'dur_us': 10 * rng.randint(2, 100), 'delay_us': int(s['rf_dead'] * 1e6 + 0.5) + 10 * rng.choice([0, 0, 1, 5])}
+        for ch in ('gx', 'gy', 'gz'):
+            if rng.random() < 0.45:
+                b[ch] = {'amp': rng.choice([1000, -2500, 12345]), 'rise': 10 * rng.randint(1, 30), 'flat': 10 * rng.randint(1, 200),
+                         'fall': 10 * rng.randint(1, 30), 'delay': 10 * rng.choice([0, 0, 1, 5, 30])}
+        if rng.random() < 0.4:
+            b['adc'] = {'n': rng.choice([10, 100, 250]), 'dwell_ns': 1000 * rng.randint(1, 20),
+                        'delay_us': int(s['adc_dead'] * 1e6 + 0.5) + 10 * rng.choice([0, 1, 5, 20])}
+        if not any(b[k] for k in ('rf', 'gx', 'gy', 'gz', 'adc')) and b['delay_us'] == 0:
+            b['delay_us'] = 10 * rng.randint(1, 100)
+        blocks.append(b)
+    return {'legacy': True, 'version': rng.choice([[1, 3, 1], [1, 3, 1], [1, 3, 2]]), 'sys': s, 'alt': None, 'lblocks': blocks,
+            'blocks': [], 'set_blocks': [], 'padded': True}
+
+
+def legacy_text(case):
+    """the .seq text of a legacy case, and the latest event end of every block (exact, from the file's own numbers)"""
+    from pypulseq.compress_shape import compress_shape
+    s = case['sys']
+    major, minor, rev = case['version']
+    libs = {'rf': {}, 'trap': {}, 'adc': {}, 'delay': {}, 'shape': {}}
+
+    def ident(lib, key):
+        return libs[lib].setdefault(key, len(libs[lib]) + 1)
+
+    lines, ends = [], {}
+    us = Fraction(1, 10 ** 6)
+    for i, b in enumerate(case['lblocks']):
+        bid = i + 1
+        e = [b['delay_us'] * us]
+        d_id = ident('delay', b['delay_us']) if b['delay_us'] > 0 else 0
+        rf_id = 0
+        if b['rf']:
+            n = int(Fraction(b['rf']['dur_us'], 10 ** 6) / F(s['rf']) + Fraction(1, 2))
+            mag = ident('shape', ('ones', n))
+            ph = ident('shape', ('zeros', n))
+            rf_id = ident('rf', (mag, ph, b['rf']['delay_us']))
+            e.append((b['rf']['delay_us'] + b['rf']['dur_us']) * us + F(s['rf_ring']))
+        g_ids = []
+        for ch in ('gx', 'gy', 'gz'):
+            g = b[ch]
+            if g:
+                g_ids.append(ident('trap', (g['amp'], g['rise'], g['flat'], g['fall'], g['delay'])))
+                e.append((g['delay'] + g['rise'] + g['flat'] + g['fall']) * us)
+            else:
+                g_ids.append(0)
+        a_id = 0
+        if b['adc']:
+            a = b['adc']
+            a_id = ident('adc', (a['n'], a['dwell_ns'], a['delay_us']))
+            e.append(a['delay_us'] * us + a['n'] * a['dwell_ns'] * Fraction(1, 10 ** 9) + F(s['adc_dead']))
+        ends[bid] = max(e)
+        row = [bid, d_id, rf_id] + g_ids + [a_id] + ([0] if (major, minor) >= (1, 3) else [])
+        lines.append(' '.join(str(v) for v in row))
+    out = ['# Pulseq sequence file', '# written by the verification harness (legacy format)', '', '[VERSION]', 'major %d' % major,
+           'minor %d' % minor, 'revision %d' % rev, '', '[DEFINITIONS]', 'Name legacy', '', '[BLOCKS]'] + lines + ['']
+    if libs['rf']:
+        out += ['[RF]'] + ['%d %g %d %d %d 0 0' % (i, 250.0, k[0], k[1], k[2]) for k, i in libs['rf'].items()] + ['']
+    if libs['trap']:
+        out += ['[TRAP]'] + ['%d %g %d %d %d %d' % ((i,) + k) for k, i in libs['trap'].items()] + ['']
+    if libs['adc']:
+        out += ['[ADC]'] + ['%d %d %d %d 0 0' % ((i,) + k) for k, i in libs['adc'].items()] + ['']
+    if libs['delay']:
+        out += ['[DELAYS]'] + ['%d %d' % (i, k) for k, i in libs['delay'].items()] + ['']
+    if libs['shape']:
+        out += ['[SHAPES]', '']
+        for (kind, n), i in libs['shape'].items():
+            c = compress_shape(np.ones(n) if kind == 'ones' else np.zeros(n))
+            out += ['shape_id %d' % i, 'num_samples %d' % int(c.num_samples)] + ['%.9g' % v for v in c.data] + ['']
+    return '\n'.join(out) + '\n', ends
